@@ -43,8 +43,10 @@ POOL = {
     "digit": [("zero", 0x30), ("one", 0x31)],
     "ardigit": [("zero-ar", 0x660)],
     "punct": [("period", 0x2E), ("hyphen", 0x2D), ("comma", 0x2C), ("space", 0x20), ("parenleft", 0x28)],
-    "mark": [("acutecomb", 0x301), ("fatha-ar", 0x64E)],
+    # cedillacomb / lowlinecomb: Script_Extensions == {Zinh} exactly (inherited, no script of their own)
+    "mark": [("acutecomb", 0x301), ("fatha-ar", 0x64E), ("cedillacomb", 0x327), ("lowlinecomb", 0x332)],
 }
+MARKNAMES = ("acutecomb", "fatha-ar", "cedillacomb", "lowlinecomb")
 LANGSYS = {"latn": "latn", "cyrl": "cyrl", "grek": "grek", "arab": "arab", "hebr": "hebr", "deva": "dev2", "kana": "kana"}
 
 
@@ -63,7 +65,7 @@ def gen1(rng, n, mode, single=False):
             pool = POOL[f]
             if single and f == "mark":
                 # a combining mark of the font's own direction only (fatha-ar has right-to-left script extensions)
-                pool = [m for m in pool if (m[0] == "fatha-ar") == rtl]
+                pool = [m for m in pool if (m[0] == "fatha-ar") == rtl or m[0] in ("cedillacomb", "lowlinecomb")]
             for nm, cp in rng.sample(pool, rng.randrange(1, len(pool) + 1)):
                 glyphs.append([nm, cp])
         alts = []
@@ -114,7 +116,12 @@ def gen1(rng, n, mode, single=False):
             langsys = [["DFLT", "dflt"]] + [[LANGSYS[f], "dflt"] for f in fams if f in LANGSYS and rng.random() < 0.8]
             if rng.random() < 0.3 and any(l[0] == "latn" for l in langsys):
                 langsys.append(["latn", "TRK "])
-        marks = [g[0] for g in glyphs if g[0] in ("acutecomb", "fatha-ar")]
+            # a script with two OpenType tags, each with its own non-default languages
+            if any(l[0] == "dev2" for l in langsys) and rng.random() < 0.6:
+                langsys += [x for x in (["dev2", "MAR "], ["deva", "dflt"], ["deva", "NEP "]) if rng.random() < 0.8]
+            if any(l[0] == "arab" for l in langsys) and rng.random() < 0.3:
+                langsys.append(["arab", "URD "])
+        marks = [g[0] for g in glyphs if g[0] in MARKNAMES]
         yield {"glyphs": glyphs, "alts": alts, "groups": groups, "kerning": kerning, "langsys": langsys,
                "gdef": bool(marks) and rng.random() < 0.7, "marks": marks, "q": rng.choice([1, 1, 2, 5, 10]),
                "ignoreMarks": rng.random() < 0.8, "lib": rng.choice(["ufoLib2", "defcon"]), "markWidth": rng.choice([0, 0, 200])}
@@ -137,6 +144,10 @@ def _fea(case):
     t = "".join("languagesystem %s %s;\n" % (s, l) for s, l in case["langsys"])
     if case["alts"]:
         t += "feature ss01 {\n" + "".join("  sub %s by %s;\n" % (b, a) for a, b in case["alts"]) + "} ss01;\n"
+    if case.get("langsys") and case.get("cpsp", True):
+        # a hand-written positioning feature: every declared language system then has its own LangSys record in GPOS, so a
+        # generated feature missing from one of them is really missing for that language
+        t += "feature cpsp {\n  pos %s <3 0 6 0>;\n} cpsp;\n" % case["glyphs"][0][0]
     if case["gdef"]:
         bases = [g[0] for g in case["glyphs"] if g[0] not in case["marks"]] + [a[0] for a in case["alts"]]
         t += "table GDEF {\n  GlyphClassDef [%s], , [%s], ;\n} GDEF;\n" % (" ".join(bases), " ".join(case["marks"]))
@@ -231,6 +242,7 @@ def run_agree2(case):
         if "GPOS" in tt:
             sf = gpos.script_features(tt)
             order = tt.getGlyphOrder()
+            obs.setdefault("kernTags", []).append(sorted(t for t in sf if any(f in ("kern", "dist") for l in sf[t].values() for f, _ in l)))
             for tag, s in tagScript:
                 lk = gpos.lookups_for(tt, tag if tag in sf else "DFLT", "dflt", {"kern", "dist"})
                 if lk is None:
@@ -322,18 +334,24 @@ def run(case):
     if obs["err"] is None and "GPOS" in tt:
         sf = gpos.script_features(tt)
         order = tt.getGlyphOrder()
+        extra = []
         for tag in sorted(sf):
             if tag == "DFLT":
                 continue
-            lk = gpos.lookups_for(tt, tag, "dflt", {"kern", "dist"})
-            ent = []
-            for g1 in names:
-                for g2 in names:
-                    if g1 in order and g2 in order:
-                        a = gpos.pair_adjust(tt, lk, g1, g2)
-                        if a[0] or a[1] or a[2] or a[3]:
-                            ent.append([g1, g2, rat(a[0]), rat(a[1])] if not (a[2] or a[3]) else [g1, g2, "999999", "999999"])
-            applied.append([tag, ent])
+            for lang in ["dflt"] + sorted(l for l in sf[tag] if l != "dflt"):
+                lk = gpos.lookups_for(tt, tag, lang, {"kern", "dist"}) or []
+                ent = []
+                for g1 in names:
+                    for g2 in names:
+                        if g1 in order and g2 in order:
+                            a = gpos.pair_adjust(tt, lk, g1, g2)
+                            if a[0] or a[1] or a[2] or a[3]:
+                                ent.append([g1, g2, rat(a[0]), rat(a[1])] if not (a[2] or a[3]) else [g1, g2, "999999", "999999"])
+                key = tag if lang == "dflt" else "%s/%s" % (tag, lang)
+                applied.append([key, ent])
+                if lang != "dflt":
+                    extra += [[key, s_] for t_, s_ in tagScript if t_ == tag]
+        tagScript = sorted(tagScript + extra)
     inp = dict(rec["ctx"])
     inp.update({"groups": case["groups"], "kerning": [[a, b, rat(v)] for a, b, v in case["kerning"]], "q": rat(case["q"]),
                 "ignoreMarks": case["ignoreMarks"],
@@ -384,7 +402,8 @@ def classify_failure(res):
     C "cell-L-no-placement": in an RTL script a pair WITHOUT a bidi-L glyph gets the right advance but no x-placement because the class
       cell of its rule also contains a bidi-L glyph (the LTR exemption for numbers is decided per rule);
     B "neutral-rtl-placement": both glyphs are script-neutral, the script is right-to-left, the advance is right but the
-      x-placement is missing (the shared Common lookup is built with left-to-right value records)."""
+      x-placement is missing (the shared Common lookup is built with left-to-right value records);
+    D "declared-script-without-own-kerning": see below."""
     r = res["req"]
     bad = res.get("info") or []
     if not bad or r["obs"].get("err") is not None:
@@ -408,7 +427,14 @@ def classify_failure(res):
         return any(s in ("Zyyy", "Zinh") for s in iscripts.get(g, ["Zyyy"]))
 
     shapes = set()
+    registered = {reg[0].strip() for f in ("kern", "dist") for reg in r["obs"]["program"].get(f, [])}
     for tag, s, g1, g2 in bad:
+        if tag.split("/")[0].strip() not in registered and applied.get(tag, {}).get((g1, g2)) is None and neutral(g1) and neutral(g2):
+            # D: the script has a language system in GPOS (declared by a languagesystem statement and used by another feature) but
+            #    no kerning lookups of its own: the writer registers kern/dist only for scripts that have lookups, so pairs of
+            #    script-neutral glyphs (Common lookup) are not kerned in runs of that script
+            shapes.add("declared-script-without-own-kerning")
+            continue
         G1, G2 = grp("public.kern1.", g1), grp("public.kern2.", g2)
         det = None
         for k in ((g1, g2), (g1, G2), (G1, g2), (G1, G2)):
@@ -483,7 +509,18 @@ def _classify_agree2(r, bad):
         rtl_ext = any(idir.get(s) == "RTL" for s in iscripts.get(x, []))
         return bidi.get(x, "") == "L" or (neutral_prop and rtl_ext)
 
+    def neutral(g):
+        return any(s in ("Zyyy", "Zinh") for s in iscripts.get(g, ["Zyyy"]))
+
+    shapes = set()
+    kt = r["obs"].get("kernTags") or []
     for tag, g1, g2 in bad:
+        if len(kt) == 2 and (tag in kt[0]) != (tag in kt[1]) and neutral(g1) and neutral(g2):
+            # finding D seen from here: only one of the writers registers kerning under a declared script that has no kerning
+            # lookups of its own
+            shapes.add("declared-script-without-own-kerning")
+            continue
+        shapes.add("writers-differ-rtl-cell-with-bidiL-or-neutral-property-glyph")
         if not all(idir.get(s) == "RTL" for s in t2s.get(tag, [])) or not t2s.get(tag):
             return None
         cands = [(a, b) for a in [g1] + grps("public.kern1.", g1) for b in [g2] + grps("public.kern2.", g2) if (a, b) in kern]
@@ -492,7 +529,7 @@ def _classify_agree2(r, bad):
         cells = [set(groups.get(k[0], [k[0]])) | set(groups.get(k[1], [k[1]])) for k in cands]
         if not any(odd(x) for c in cells for x in c):
             return None
-    return {"shapes": ["writers-differ-rtl-cell-with-bidiL-or-neutral-property-glyph"]}
+    return {"shapes": sorted(shapes)}
 
 
 LEVEL_TEXT = ("Proved (Lean, all inputs): KerningPair.__lt__ is a strict weak order and pairs.sort() yields a sorted permutation; the first "
